@@ -689,10 +689,11 @@ func (o *coreOracle) OnEnd(s *Sim) {
 		s.probe("c07.waiting-for-user")
 		return
 	}
+	early := ""
 	switch s.EndReason {
 	case "quiescent":
-		s.Violate("C07", "L1-lost-wakeup", "L1/"+sc.Family+"/"+string(ro.Status.Phase)+"/"+reason, s.Store.seq, "simulator is quiescent (no queued key, no armed timer, no undelivered event) but the rollout is not finished: %s", s.abstractState())
+		s.Violate("C07", "L1-lost-wakeup", "L1/"+sc.Family+"/"+string(ro.Status.Phase)+"/"+reason+"/"+string(ro.Status.CurrentStepState)+early, s.Store.seq, "simulator is quiescent (no queued key, no armed timer, no undelivered event) but the rollout is not finished: %s", s.abstractState())
 	default:
-		s.Violate("C07", "L2-budget", "L2/"+sc.Family+"/"+string(ro.Status.Phase)+"/"+reason, s.Store.seq, "rollout did not finish within the budget (%s after %d steps, %.0fs simulated): %s", s.EndReason, s.Steps, s.Elapsed().Seconds(), s.abstractState())
+		s.Violate("C07", "L2-budget", "L2/"+sc.Family+"/"+string(ro.Status.Phase)+"/"+reason+"/"+string(ro.Status.CurrentStepState)+early, s.Store.seq, "rollout did not finish within the budget (%s after %d steps, %.0fs simulated): %s", s.EndReason, s.Steps, s.Elapsed().Seconds(), s.abstractState())
 	}
 }
